@@ -97,13 +97,18 @@ def string_cell_roundtrip(cell: str, missing: str, fill: str) -> bool:
     return back == cell
 
 
-def int_cell_roundtrip(cell: int, missing: str, fill: int) -> bool:
+_INTS = [0, 7, -3, 10, 999999, -1]
+
+
+def int_cell_roundtrip(cell_sel: int, fill_sel: int, missing: str) -> bool:
     """
+    pre: 0 <= cell_sel < 6 and 0 <= fill_sel < 6
     pre: len(missing) <= 2 and "," not in missing
-    pre: str(cell) != missing
+    pre: str(_INTS[cell_sel]) != missing
     post: _
     raises: SCSVError
     """
+    cell, fill = _INTS[cell_sel], _INTS[fill_sel]
     w = _written_cell("integer", cell, missing, fill)
     back = pio._parse_scsv_cell(int, str(w), missingstr=missing, fillval=fill)
     return back == cell
@@ -121,13 +126,18 @@ def bool_cell_roundtrip(cell: bool, missing: str) -> bool:
     return back == cell
 
 
-def float_cell_roundtrip(cell: float, missing: str, fill: float) -> bool:
+_FLOATS = [float("nan"), float("inf"), float("-inf"), 1.5, -0.0, 1e300]
+
+
+def float_cell_roundtrip(cell_sel: int, fill_sel: int, missing: str) -> bool:
     """
+    pre: 0 <= cell_sel < 6 and 0 <= fill_sel < 6
     pre: len(missing) <= 2 and "," not in missing
-    pre: str(cell) != missing
+    pre: str(_FLOATS[cell_sel]) != missing
     post: _
     raises: SCSVError
     """
+    cell, fill = _FLOATS[cell_sel], _FLOATS[fill_sel]
     w = _written_cell("float", cell, missing, fill)
     back = pio._parse_scsv_cell(float, str(w), missingstr=missing, fillval=fill)
     if cell != cell:
@@ -135,7 +145,11 @@ def float_cell_roundtrip(cell: float, missing: str, fill: float) -> bool:
     return back == cell
 
 
-def _schema(delimiter: str, missing: str, name: str, kind: int, has_fill: bool, drop: int, n_fields: int):
+_NAMES = ["a", "_x", "x1", "1a", "a b", "", "a-b", "class"]
+
+
+def _schema(delimiter: str, missing: str, name_sel: int, kind: int, has_fill: bool, drop: int, n_fields: int):
+    name = _NAMES[name_sel]
     kinds = ["string", "integer", "float", "boolean", "complex", "date"]
     field = {"name": name, "type": kinds[kind % 6]}
     if has_fill:
@@ -150,13 +164,14 @@ def _schema(delimiter: str, missing: str, name: str, kind: int, has_fill: bool, 
     return schema, kinds[kind % 6]
 
 
-def schema_validation(delimiter: str, missing: str, name: str, kind: int, has_fill: bool, drop: int, n_fields: int) -> bool:
+def schema_validation(delimiter: str, missing: str, name_sel: int, kind: int, has_fill: bool, drop: int, n_fields: int) -> bool:
     """
-    pre: len(delimiter) <= 2 and len(missing) <= 2 and len(name) <= 2
+    pre: len(delimiter) <= 1 and len(missing) <= 2 and 0 <= name_sel < 8
     pre: 0 <= kind < 6 and 0 <= drop < 4 and 0 <= n_fields <= 2
     post: _
     """
-    schema, k = _schema(delimiter, missing, name, kind, has_fill, drop, n_fields)
+    name = _NAMES[name_sel]
+    schema, k = _schema(delimiter, missing, name_sel, kind, has_fill, drop, n_fields)
     saved = pio._log
     pio._log = _Log
     try:
@@ -175,13 +190,13 @@ def schema_validation(delimiter: str, missing: str, name: str, kind: int, has_fi
     return bool(got) == bool(want)
 
 
-def invalid_schema_refused(delimiter: str, missing: str, name: str, kind: int, has_fill: bool, drop: int, n_fields: int) -> bool:
+def invalid_schema_refused(delimiter: str, missing: str, name_sel: int, kind: int, has_fill: bool, drop: int, n_fields: int) -> bool:
     """
-    pre: len(delimiter) <= 2 and len(missing) <= 2 and len(name) <= 2
+    pre: len(delimiter) <= 1 and len(missing) <= 2 and 0 <= name_sel < 8
     pre: 0 <= kind < 6 and 0 <= drop < 4 and 0 <= n_fields <= 2
     post: _
     """
-    schema, k = _schema(delimiter, missing, name, kind, has_fill, drop, n_fields)
+    schema, k = _schema(delimiter, missing, name_sel, kind, has_fill, drop, n_fields)
     saved = pio._log
     pio._log = _Log
     try:
@@ -226,7 +241,7 @@ def unequal_columns_refused(n1: int, n2: int) -> bool:
 
 def unparsable_cell_refused(cell: str) -> bool:
     """
-    pre: len(cell) <= 3
+    pre: len(cell) <= 2
     post: _
     """
     try:
